@@ -13,6 +13,7 @@ import (
 	"encoding/json"
 	"fmt"
 	"math/big"
+	"os"
 	"sort"
 	"strings"
 	"time"
@@ -30,6 +31,7 @@ import (
 	"github.com/ontio/ontology/vm/neovm/types"
 	"pgregory.net/rapid"
 
+	"verifharness/internal/harn"
 	"verifharness/internal/iso"
 )
 
@@ -561,6 +563,7 @@ type genOpt struct {
 	maps     bool
 	bigBytes bool
 	wide     bool // occasionally wide containers
+	spine    bool // force one chain of containers down to maxDepth
 }
 
 type doneC struct{ id, height, size int }
@@ -582,10 +585,32 @@ func (g *gstate) prim() (int, int, int) {
 	return g.s.add(genPrimNode(g.t, g.opt.bigBytes)), 0, 1
 }
 
-// gen creates the sub-value at a depth; returns id, height and expanded size.
-func (g *gstate) gen(depth, parent int) (int, int, int) {
+// freshKey draws a map key whose key bytes are not in seen (falls back to a synthetic one).
+func (g *gstate) freshKey(seen map[string]bool, must bool) (int, bool) {
+	for try := 0; try < 25; try++ {
+		kn := genKeyNode(g.t)
+		if try > 20 {
+			kn = node{K: kBytes, B: []byte(fmt.Sprintf("zz%d", len(seen)))}
+		}
+		tmp := spec{N: []node{kn}}
+		ks := string(tmp.keyBytes(0))
+		if !seen[ks] {
+			seen[ks] = true
+			return g.s.add(kn), true
+		}
+		if !must {
+			return 0, false
+		}
+	}
+	return 0, false
+}
+
+// gen creates the sub-value at a depth; returns id, height and expanded size. With spine set the
+// value is a non-empty container one of whose elements (at a generated index) continues the
+// spine, so that the value reaches opt.maxDepth.
+func (g *gstate) gen(depth, parent int, spine bool) (int, int, int) {
 	t := g.t
-	if depth >= g.opt.maxDepth || g.remaining <= 2 {
+	if depth >= g.opt.maxDepth || (g.remaining <= 2 && !spine) {
 		if depth <= g.opt.maxDepth && rapid.IntRange(0, 7).Draw(t, "emptyc") == 0 {
 			return g.emptyContainer(depth, parent)
 		}
@@ -597,7 +622,7 @@ func (g *gstate) gen(depth, parent int) (int, int, int) {
 	} else if depth < 3 {
 		pc = 30
 	}
-	if rapid.IntRange(0, 99).Draw(t, "isprim") < pc {
+	if !spine && rapid.IntRange(0, 99).Draw(t, "isprim") < pc {
 		return g.prim()
 	}
 	kinds := []string{kArray, kArray}
@@ -616,25 +641,35 @@ func (g *gstate) gen(depth, parent int) (int, int, int) {
 	if g.opt.wide && rapid.IntRange(0, 19).Draw(t, "wide") == 0 {
 		cnt = rapid.IntRange(6, 40).Draw(t, "nwide")
 	}
+	if lim := g.remaining / 2; cnt > lim {
+		cnt = lim // keep within the budget (a map entry costs two values)
+		if cnt < 0 {
+			cnt = 0
+		}
+	}
+	spineIdx := -1
+	if spine {
+		if cnt == 0 {
+			cnt = 1
+		}
+		spineIdx = rapid.IntRange(0, cnt-1).Draw(t, "spineIdx")
+	}
 	height, size := 0, 1
 	seenKeys := map[string]bool{}
-	for i := 0; i < cnt && g.remaining > 0; i++ {
+	for i := 0; i < cnt && (g.remaining > 0 || i <= spineIdx); i++ {
 		var mk int
 		if k == kMap {
-			kn := genKeyNode(t)
-			tmp := spec{N: []node{kn}}
-			ks := string(tmp.keyBytes(0))
-			if seenKeys[ks] {
+			var ok bool
+			mk, ok = g.freshKey(seenKeys, i == spineIdx)
+			if !ok {
 				continue
 			}
-			seenKeys[ks] = true
-			mk = g.s.add(kn)
 			g.remaining--
 			size++
 		}
 		var cid, ch, cs int
 		aliased := false
-		if g.opt.alias && len(g.done) > 0 && rapid.IntRange(0, 99).Draw(t, "alias") < 22 {
+		if i != spineIdx && g.opt.alias && len(g.done) > 0 && rapid.IntRange(0, 99).Draw(t, "alias") < 22 {
 			// candidates whose height fits below this depth and whose expanded size fits the budget
 			var cand []doneC
 			for _, d := range g.done {
@@ -654,7 +689,7 @@ func (g *gstate) gen(depth, parent int) (int, int, int) {
 			}
 		}
 		if !aliased {
-			cid, ch, cs = g.gen(depth+1, id)
+			cid, ch, cs = g.gen(depth+1, id, i == spineIdx)
 		}
 		n := &g.s.N[id]
 		n.E = append(n.E, cid)
@@ -693,7 +728,7 @@ func newGState(t *rapid.T, opt genOpt) *gstate {
 // genAcyclic draws an acyclic value (tree or DAG) within opt.
 func genAcyclic(t *rapid.T, opt genOpt) *gstate {
 	g := newGState(t, opt)
-	id, _, _ := g.gen(0, -1)
+	id, _, _ := g.gen(0, -1, opt.spine)
 	g.s.Root = id
 	return g
 }
@@ -754,18 +789,7 @@ func (g *gstate) addBackEdge(forceIndex int) (backEdge, bool) {
 		for _, k := range n.MK {
 			seen[string(g.s.keyBytes(k))] = true
 		}
-		var kid int
-		for try := 0; ; try++ {
-			kn := genKeyNode(t)
-			if try > 20 {
-				kn = node{K: kBytes, B: []byte(fmt.Sprintf("zz%d", try))}
-			}
-			tmp := spec{N: []node{kn}}
-			if !seen[string(tmp.keyBytes(0))] {
-				kid = g.s.add(kn)
-				break
-			}
-		}
+		kid, _ := g.freshKey(seen, true)
 		n = &g.s.N[x]
 		n.MK = append(n.MK, kid)
 		n.E = append(n.E, a)
@@ -1071,6 +1095,7 @@ func doDeserialize(rs *wres, raw []byte) {
 // --- program execution (C15) ---------------------------------------------------------------
 
 var quietOnce bool
+var emptyStore *leveldbstore.LevelDBStore
 
 func quiet() {
 	if !quietOnce {
@@ -1090,9 +1115,19 @@ var gasTable = map[string]uint64{
 // runOnce executes a NeoVM program as the entry script of an invocation in a fresh engine over a
 // fresh state in which the script itself is a deployed contract (so that it may use storage), the
 // way HandleInvokeTransaction does, and renders everything the property observes.
-func runOnce(code []byte) string {
+func runOnce(code []byte) (out string) {
+	defer func() {
+		if r := recover(); r != nil {
+			out = fmt.Sprintf("PANIC %v", r)
+		}
+	}()
 	quiet()
-	overlay := overlaydb.NewOverlayDB(leveldbstore.NewMemLevelDBStore())
+	if emptyStore == nil {
+		// one empty, never written persistent store per process (a goleveldb instance owns goroutines
+		// and buffers); every run gets its own overlay on top of it, so every run starts from the same state
+		emptyStore = leveldbstore.NewMemLevelDBStore()
+	}
+	overlay := overlaydb.NewOverlayDB(emptyStore)
 	cache := storage.NewCacheDB(overlay)
 	dc, err := payload.NewDeployCode(code, payload.NEOVM_TYPE, "c", "1", "a", "e", "d")
 	if err != nil {
@@ -1100,6 +1135,8 @@ func runOnce(code []byte) string {
 	}
 	cache.PutContract(dc)
 	cache.Commit()
+	pre := map[string]bool{} // entries of the prepared state (the deployed script)
+	overlay.GetWriteSet().ForEach(func(k, v []byte) { pre[hex.EncodeToString(k)+"="+hex.EncodeToString(v)] = true })
 	cache = storage.NewCacheDB(overlay)
 	sc := smartcontract.SmartContract{
 		Config:   &smartcontract.Config{Time: 1600000000, Height: 100, Tx: &ctypes.Transaction{}},
@@ -1134,7 +1171,9 @@ func runOnce(code []byte) string {
 	}
 	sb.WriteString(" | writes:")
 	overlay.GetWriteSet().ForEach(func(k, v []byte) {
-		sb.WriteString(" " + hex.EncodeToString(k) + "=" + hex.EncodeToString(v))
+		if e := hex.EncodeToString(k) + "=" + hex.EncodeToString(v); !pre[e] {
+			sb.WriteString(" " + e)
+		}
 	})
 	if e := overlay.Error(); e != nil {
 		sb.WriteString(" | dberr:" + e.Error())
@@ -1167,6 +1206,18 @@ type isoResult struct {
 	diag     string
 }
 
+// newWorker starts the child and waits for its first answer with a generous limit: starting the
+// test binary costs seconds of CPU (package initialisation of the wasm validator) and much more
+// wall time on a loaded machine, which must not eat into the per-case wait.
+func newWorker(ev *harn.Collector) *iso.Worker {
+	w := iso.New(workerName)
+	b, _ := json.Marshal(&wreq{Op: "deser", Raw: []byte{0x01, 0x01}})
+	if r := w.Do(b, 10*time.Minute); r.TimedOut {
+		ev.Class("timeout:worker-start")
+	}
+	return w
+}
+
 func callWorker(w *iso.Worker, rq *wreq) isoResult {
 	b, err := json.Marshal(rq)
 	if err != nil {
@@ -1188,10 +1239,10 @@ func callWorker(w *iso.Worker, rq *wreq) isoResult {
 
 func diagHead(s string) string {
 	s = strings.TrimSpace(s)
-	if i := strings.Index(s, "\n\n"); i > 0 && i < 400 {
+	if i := strings.Index(s, "\n\n"); i > 0 && i < 400 && os.Getenv("VERIF_DIAG_FULL") == "" {
 		s = s[:i]
 	}
-	if len(s) > 400 {
+	if len(s) > 400 && os.Getenv("VERIF_DIAG_FULL") == "" {
 		s = s[:400]
 	}
 	return strings.ReplaceAll(s, "\n", " / ")
